@@ -15,7 +15,19 @@ fn entry(i: usize) -> (String, String) {
     (IDENTS[i % 4].to_string(), DECLS[i / 4].to_string())
 }
 
+/// what may follow the closing brace of the LAST entry on its line; every entry starts a line, so its rule must still appear
+const TAILS: [&str; 4] = ["", ";", " // note", " x"];
+
 fn legend_doc(diagram: &str, header: &str, entries: &[usize], lead: bool, trailing: usize) -> (String, Vec<(String, String)>) {
+    if trailing >= 10 {
+        // variant: a tail after the last entry's closing brace
+        let (mut lf, rules) = legend_doc(diagram, header, entries, false, 0);
+        if !entries.is_empty() {
+            lf.push_str(TAILS[(trailing - 10) % TAILS.len()]);
+        }
+        let _ = lead;
+        return (lf, rules);
+    }
     // lead == true now selects CRLF line endings for the whole document (entries always start at column 0)
     if lead {
         let (lf, rules) = legend_doc(diagram, header, entries, false, trailing);
@@ -110,7 +122,7 @@ fn tag_shapes() -> Vec<(&'static str, String)> {
     ]
 }
 
-const TAGS: [&str; 5] = ["{a}", "{b1}", "{a,b}", "{Ab9}", "{zz9}"];
+const TAGS: [&str; 6] = ["{a}", "{b1}", "{a,b}", "{Ab9}", "{zz9}", "{}"];
 
 fn tag_names(tag: &str) -> Vec<String> {
     tag.trim_matches(|c| c == '{' || c == '}').split(',').map(|s| s.to_string()).collect()
@@ -180,6 +192,19 @@ fn check_tag(cx: &mut Cx, case: &Case) {
     };
     cx.compared();
     let names = tag_names(tag);
+    if tag == "{}" {
+        // no names: not a tag, stays ordinary text wherever it stands
+        let mut want = base.elems.clone();
+        want.push(El { kind: Kind::Text, cls: vec![], group: None, xs: vec![8.0 * col as f64 + 2.0], ys: vec![16.0 * row as f64 + 12.0], lens: vec![], flags: vec![], text: tag.to_string() });
+        let (a, b) = svg::multiset_diff(&want, &d.elems, 1e-9);
+        if !a.is_empty() || !b.is_empty() {
+            cx.fail("non-tag-text-changed", format!("'{{}}' at column {} row {} of {} is not a tag and must stay ordinary text: missing [{}] extra [{}]\n{}", col, row, sname,
+                a.iter().take(4).map(|e| e.brief()).collect::<Vec<_>>().join(" ; "), b.iter().take(4).map(|e| e.brief()).collect::<Vec<_>>().join(" ; "), input));
+        } else {
+            cx.outcome(&("empty-braces", case.n[0]));
+        }
+        return;
+    }
     // text box of the tag in px: anchored at Q, the library tests the span from the anchor
     let (tx0, ty) = (8.0 * col as f64 + 2.0, 16.0 * row as f64 + 12.0);
     let tx1 = 8.0 * (col + tag.chars().count()) as f64;
@@ -275,7 +300,7 @@ impl Prop for C16 {
                 for dg in 0..3i64 {
                     for hd in 0..2i64 {
                         for lead in 0..2i64 {
-                            for tr in 0..3i64 {
+                            for tr in [0i64, 1, 2, 11, 12, 13] {
                                 // sequences of length 0..maxseq
                                 let mut seqs: Vec<Vec<i64>> = vec![vec![]];
                                 let mut layer: Vec<Vec<i64>> = vec![vec![]];
